@@ -152,6 +152,18 @@ class Ref(
   def sym_eq(self, other: Any) -> bool:
     return isinstance(other, Ref) and self.value is other.value
 
+  def sym_lt(self, other: Any) -> bool:
+    if not isinstance(other, Ref):
+      return base.lt(self, other)
+    if self.value is other.value:
+      return False
+    # References are equal only when they refer to the same object: distinct
+    # objects of equal content are ordered by identity, so that exactly one
+    # of `lt`, `eq` and `gt` holds.
+    if base.eq(self.value, other.value):
+      return id(self.value) < id(other.value)
+    return base.lt(self.value, other.value)
+
   def sym_jsonify(self, *, save_ref_value: bool = False, **kwargs: Any) -> Any:
     if save_ref_value:
       return base.to_json(self._value, save_ref_value=save_ref_value, **kwargs)
